@@ -210,6 +210,10 @@ pub fn canonical_raw(
     // Append fields in ascending tags order.
     for (num, mut values) in read_fields(buf, desc)? {
         let fd = desc.get_field(num).unwrap();
+        // A field present only as empty packed chunks has no values.
+        if values.is_empty() {
+            continue;
+        }
         if values.len() > 1 && !fd.is_list() {
             anyhow::bail!("non-repeated field with multiple values");
         }
